@@ -274,12 +274,45 @@ def check_likelihood(e1: int, e2: int, n_out: int, n_mech: int,
         x = np.full(n2, 0.9)
         score, sens = ll.evaluateS1(x)
         ok = ok and np.shape(sens) == (n2,)
+        # outside the support of an error parameter (score -inf) the
+        # gradient still has one entry per parameter
+        for j in range(n2):
+            if names2[j] in names[n_mech:]:
+                xb = x.copy()
+                xb[j] = -0.5
+                sb, gb = ll.evaluateS1(xb)
+                ok = ok and np.shape(gb) == (n2,)
         ok = ok and len(ll.compute_pointwise_ll(x)) == sum(
             len(o) for o in obs)
         pm = chi.PredictiveModel(mech, ems)
         ok = ok and pm.n_parameters() == n == len(pm.get_parameter_names())
         pm.fix_parameters(fixed)
         ok = ok and pm.n_parameters() == n2 == len(pm.get_parameter_names())
+    return bool(ok)
+
+
+@concrete
+def check_error_model(e: int, n_obs: int, n_mech: int, bad: int) -> bool:
+    em = _error_model(e)
+    n = em.n_parameters()
+    ok = len(em.get_parameter_names()) == n
+    par = np.full(n, 0.7)
+    if bad:
+        par[(bad - 1) % n] = -0.3
+    yb = np.linspace(1.0, 2.0, n_obs)
+    y = np.linspace(1.2, 1.9, n_obs)
+    S = np.ones((n_obs, n_mech))
+    score, sens = em.compute_sensitivities(par, yb, S, y)
+    ok = ok and np.shape(sens) == (n_mech + n,)
+    ok = ok and len(em.compute_pointwise_ll(par, yb, y)) == n_obs or bool(bad)
+    red = chi.ReducedErrorModel(_error_model(e))
+    if n > 1:
+        red.fix_parameters({red.get_parameter_names()[0]: 0.7})
+        p2 = np.full(n - 1, -0.3 if bad else 0.7)
+        score, sens = red.compute_sensitivities(p2, yb, S, y)
+        ok = ok and np.shape(sens) == (n_mech + n - 1,)
+        ok = ok and red.n_parameters() == n - 1 == len(
+            red.get_parameter_names())
     return bool(ok)
 
 
